@@ -533,7 +533,6 @@ class SymC:
     """Complex number as a pair of exact scalars."""
 
     __slots__ = ("re", "im")
-    __array_priority__ = 1900
 
     def __init__(self, re, im=0):
         self.re = Sym._co(re)
@@ -1136,6 +1135,8 @@ class SymNP(types.ModuleType):
         if not isinstance(a, _np.ndarray) and not _has_sym(a):
             return _np.unique(a, axis=axis, return_index=return_index, **kw)
         a = sarr(a, copy=False)
+        if axis == 0 and a.ndim == 2 and return_index:
+            return _LazyUnique(a, False), _LazyUnique(a, True)
         if axis == 0 and a.ndim == 2:
             rows = list(range(len(a)))
 
@@ -1174,6 +1175,65 @@ class SymNP(types.ModuleType):
 
     def isnan(self, a):
         return _u_isnan(a) if isinstance(a, _np.ndarray) else False
+
+
+class _LazyUnique:
+    """np.unique(rows, axis=0, return_index=True): the number of distinct rows is decided by pairwise
+    equality conditions (one fork per pair); the sort is only performed if the contents are read."""
+
+    _cache = {}
+
+    def __init__(self, a, want_index):
+        self.a, self.want_index = a, want_index
+        self._res = None
+
+    def _distinct(self):
+        a = self.a
+        key = id(a)
+        st = getattr(a, "_uniq_state", None)
+        keep = []
+        for i in range(len(a)):
+            dup = False
+            for j in keep:
+                if bool(_all_reduce(a[i] == a[j], axis=None)):
+                    dup = True
+                    break
+            if not dup:
+                keep.append(i)
+        return keep
+
+    def _sorted(self):
+        if self._res is None:
+            a = self.a
+            keep = self._distinct()
+
+            def cmp(i, j):
+                for k in range(a.shape[1]):
+                    c = _cmp3(a[i, k], a[j, k])
+                    if c:
+                        return c
+                return 0
+
+            order = sorted(keep, key=functools.cmp_to_key(cmp))
+            idx = _np.array(order)
+            self._res = idx if self.want_index else a[idx]
+        return self._res
+
+    def __len__(self):
+        return len(self._distinct()) if self._res is None else len(self._res)
+
+    @property
+    def shape(self):
+        return (len(self),) + (() if self.want_index else self.a.shape[1:])
+
+    def __getitem__(self, k):
+        return self._sorted()[k]
+
+    def __iter__(self):
+        return iter(self._sorted())
+
+    def __array__(self, dtype=None, copy=None):
+        return _np.asarray(self._sorted())
 
 
 def _has_sym(x):
